@@ -17,6 +17,18 @@ def check(ctx):
     for r in rejects:
         seg, idx = r
         if r.reason in cm.C06_REASONS:
+            # one of C06's capacity rules is also C05's: at quiescence the probe dial of a peer without any
+            # connection is refused by a limit that is not reached - "the dial is actually attempted" fails
+            # (a leaked limit slot, seeded C05g)
+            step = json.loads(seg[idx - 1])
+            if not (r.reason == "dial refused by the outgoing limit although below it"
+                    and step.get("s", {}).get("a") == "probe"):
+                continue
+            violations.append({"sig": "probe-dial-refused-by-a-limit-that-is-not-reached",
+                               "what": "%s at %s" % (r.reason, seg[idx - 1][:500]),
+                               "replay_obj": {"property": "C05", "reason": r.reason,
+                                              "signature": "probe-dial-refused-by-a-limit-that-is-not-reached",
+                                              "segment": [json.loads(x) for x in seg[:idx]]}})
             continue
         for sig in cm.classify(seg, idx, r.reason):
             violations.append({"sig": sig, "what": "%s at %s" % (r.reason, seg[idx - 1][:500]),
